@@ -2171,6 +2171,37 @@ def __unquote_args_sym(f: sym.Symbol, args: frozenset[sym.Symbol]):
     return f
 
 
+def __inline_var_syms(
+    ctx: AnalyzerContext, node: Node, var_syms: dict[int, sym.Symbol]
+) -> None:
+    """Collect the symbols of an analyzed function body which name Vars, keyed by the
+    identity of the symbol object, mapped to the fully qualified name of that Var.
+
+    The body of an inline function is analyzed again wherever it is inlined, so the
+    Vars it names must be named in a way which does not depend on the namespace,
+    aliases, or locals of the call site."""
+    if isinstance(node, VarRef) and isinstance(node.form, sym.Symbol):
+        var_syms[id(node.form)] = sym.symbol(
+            node.var.name.name, ns=node.var.ns.name, meta=node.form.meta
+        )
+
+    # Macro calls and inlined function calls are replaced by their expansion in the
+    # AST, so the symbol naming the macro or function survives only in the raw forms.
+    for raw_form in node.raw_forms:
+        if not isinstance(raw_form, ISeq) or not isinstance(raw_form.first, sym.Symbol):
+            continue
+        head = raw_form.first
+        if id(head) in var_syms or head.name.startswith("."):
+            continue
+        v = runtime.resolve_var(head, ctx.current_ns)
+        if v is not None:
+            var_syms[id(head)] = sym.symbol(
+                v.name.name, ns=v.ns.name, meta=head.meta
+            )
+
+    node.visit(partial(__inline_var_syms, ctx), var_syms)
+
+
 def _inline_fn_ast(
     ctx: AnalyzerContext,
     form: llist.PersistentList | ISeq,
@@ -2205,12 +2236,17 @@ def _inline_fn_ast(
     logger.log(
         TRACE, f"Generating inline def for {name.name if name is not None else 'fn'}"
     )
+    params = frozenset(binding.form for binding in inline_arity.params)
+    var_syms: dict[int, sym.Symbol] = {}
+    __inline_var_syms(ctx, inline_arity.body.ret, var_syms)
+
+    def unquote_args_and_qualify_vars(f: LispForm):
+        if isinstance(f, sym.Symbol) and f not in params and id(f) in var_syms:
+            return var_syms[id(f)]
+        return __unquote_args(f, params)
+
     unquoted_form = reader._postwalk(
-        lambda f: __unquote_args(
-            f,
-            frozenset(binding.form for binding in inline_arity.params),
-        ),
-        inline_arity.body.ret.form,
+        unquote_args_and_qualify_vars, inline_arity.body.ret.form
     )
     macroed_form = reader.syntax_quote(unquoted_form)
     inline_fn_form = llist.l(
